@@ -6,6 +6,7 @@ import asyncio
 import errno
 import struct
 import sys
+from collections import deque
 from dataclasses import dataclass
 from enum import IntEnum
 from typing import Any, Self
@@ -87,6 +88,9 @@ class HSFZConnection:
         self.dst_addr = dst_addr
         self.ack_timeout = ack_timeout
         self._read_queue: asyncio.Queue[HSFZDiagFrame | int] = asyncio.Queue()
+        # Frames which were taken from the queue by a consumer they were not meant for;
+        # they are handed out again, in their original order, before newer frames.
+        self._unread_frames: deque[HSFZDiagFrame] = deque()
         self._read_task = asyncio.create_task(self._read_worker())
         self._read_task.add_done_callback(
             handle_task_error,
@@ -204,10 +208,20 @@ class HSFZConnection:
             else:
                 raise RuntimeError("connection already closed")
 
+        if len(self._unread_frames) > 0:
+            return self._unread_frames.popleft()
         return await self._read_queue.get()
 
     async def read_diag_request(self) -> bytes:
-        unexpected_packets = []
+        unexpected_packets: list[HSFZDiagFrame] = []
+        try:
+            return await self._read_diag_request(unexpected_packets)
+        finally:
+            # We do not want to consume packets that we were not expecting; hand them back
+            # (also when this read is cancelled), in front of frames which arrived later
+            self._unread_frames.extendleft(reversed(unexpected_packets))
+
+    async def _read_diag_request(self, unexpected_packets: list[HSFZDiagFrame]) -> bytes:
         while True:
             hdr, req_hdr, data = await self._unpack_frame(await self.read_frame())
             if hdr.CWord != HSFZStatus.Data:
@@ -223,14 +237,20 @@ class HSFZConnection:
                 unexpected_packets.append((hdr, req_hdr, data))
                 continue
 
-            # We do not want to consume packets that we were not expecting; add them to queue again
-            for item in unexpected_packets:
-                await self._read_queue.put(item)
-
             return data
 
     async def _read_ack(self, prev_data: bytes) -> None:
-        unexpected_packets = []
+        unexpected_packets: list[HSFZDiagFrame] = []
+        try:
+            await self._read_ack_skipping(prev_data, unexpected_packets)
+        finally:
+            # We do not want to consume packets that we were not expecting; hand them back
+            # (also when the caller gives up), in front of frames which arrived later
+            self._unread_frames.extendleft(reversed(unexpected_packets))
+
+    async def _read_ack_skipping(
+        self, prev_data: bytes, unexpected_packets: list[HSFZDiagFrame]
+    ) -> None:
         while True:
             hdr, req_hdr, data = await self._unpack_frame(await self.read_frame())
             if hdr.CWord != HSFZStatus.Ack:
@@ -251,10 +271,6 @@ class HSFZConnection:
                 )
                 unexpected_packets.append((hdr, req_hdr, data))
                 continue
-
-            # We do not want to consume packets that we were not expecting; add them to queue again
-            for item in unexpected_packets:
-                await self._read_queue.put(item)
 
             return
 
